@@ -21,6 +21,8 @@ def monitors(ctx):
 
 def run(ctx):
     monitor.enable(*monitors(ctx))
+    from .. import w_suite
+    w_suite.maybe(ctx)      # thorough tier: the repository's own tests under this property's monitors
     ctx.floor('C03.mask_calls', 2000)
     ctx.floor('C03.order_checked', 200)
     ctx.floor('C03.flag_soundness', 200)
